@@ -57,20 +57,7 @@ func applyAll(r *partlib.Replica, path []partlib.Op, entries [][]byte, from int,
 	return outs, "", ""
 }
 
-// usedReplica holds the contents of another log.
-func usedReplica() *partlib.Replica {
-	d := partlib.NewReplica()
-	other := []partlib.Op{
-		{Kind: "ins", Items: []partlib.ItemSpec{{ID: 0, Vec: 2, Meta: 4}}},
-		{Kind: "ins", Items: []partlib.ItemSpec{{ID: 3, Vec: 1, Meta: 1}}},
-		{Kind: "ins", Items: []partlib.ItemSpec{{ID: 1, Vec: 0, Meta: 0}}},
-		{Kind: "rem", Items: []partlib.ItemSpec{{ID: 1}}},
-	}
-	for i, o := range other {
-		d.Apply(500+i, partlib.Entry(o, partlib.NotifID(500+i)), false)
-	}
-	return d
-}
+var usedReplica = partlib.UsedReplica
 
 func build(path []partlib.Op) (*wld, string, string) {
 	entries := make([][]byte, len(path))
@@ -167,6 +154,7 @@ func main() {
 			ev.Tool("%v", err)
 		}
 		json.Unmarshal(b, &f)
+		partlib.MBMetas()
 		_, k, d := build(f.Replay.Ops)
 		if k != "" {
 			fmt.Printf("VIOLATION property=C04 replay=%s\n  %s: %s\n", os.Args[2], k, d)
@@ -208,6 +196,19 @@ func main() {
 		return
 	}
 	run := ev.Start("C04", "model_checking")
+	// directed logs outside the BFS alphabet: multi-byte metadata keys and values on both sides of the byte limits of the
+	// snapshot format (what a character count would let through cannot be restored), every cut point as for any other log
+	partlib.MBMetas()
+	directed := 0
+	for _, lg := range [][]partlib.Op{
+		{{"ins", []partlib.ItemSpec{{0, 0, 9}}}, {"ins", []partlib.ItemSpec{{1, 1, 8}}}, {"upd", []partlib.ItemSpec{{0, 1, 8}}}, {"upd", []partlib.ItemSpec{{0, 1, 11}}}, {"upd", []partlib.ItemSpec{{0, 0, 10}}}},
+		{{"bins", []partlib.ItemSpec{{0, 0, 8}, {1, 1, 9}, {2, 0, 10}}}, {"bupd", []partlib.ItemSpec{{1, 0, 10}, {1, 1, 11}, {2, 0, 9}}}, {"brem", []partlib.ItemSpec{{1, 0, 0}}}},
+	} {
+		directed += len(lg)
+		if _, k, d := build(lg); k != "" {
+			run.Violation(k+":multi-byte-metadata", fmt.Sprintf("%v: %s", lg, d), map[string]interface{}{"ops": lg})
+		}
+	}
 	const n = 16
 	total := seq.Stats{Outcomes: map[string]int{}, Complete: true, DepthCompleted: depth}
 	samples := &ev.Samples{N: 5}
@@ -239,6 +240,7 @@ func main() {
 		"map-order policies: A ascending, B descending, C rotate-1, D rotate-2 (while restoring/applying)",
 	}
 	run.Finish(ev.Coverage{
+		"directed_multibyte_entries":    directed,
 		"states":                        total.States,
 		"transitions":                   total.Transitions,
 		"traces_validated_against_impl": total.Transitions,
